@@ -444,3 +444,92 @@ func TestC18_inflight(t *testing.T) {
 }
 
 var _ = oracle.InitialFEN
+
+// C18/otherengines: what an engine with a hash table returns does not depend on other engines
+// of the same process, whatever their table size: searches run on them before or alongside.
+type otherEnginesCase struct {
+	searchCase        // the engine under observation: root and depth limit
+	Hash       uint   `json:"hash_mb"`
+	OtherPlies int    `json:"other_plies"` // the other engine's game: the same line minus this many plies
+	Alongside  bool   `json:"alongside"`   // the other engine analyses while the observed one does (else before)
+}
+
+var checkC18Others = def("C18/otherengines", func(c otherEnginesCase) error {
+	cfg, err := findConfig(c.Config)
+	if err != nil {
+		return err
+	}
+	ctx := context.Background()
+	mk := func(moves []string) (*engine.Engine, error) {
+		s, _ := cfg.make(c.Param)
+		e := engine.New(ctx, "verif", "verif", s, engine.WithOptions(engine.Options{Hash: c.Hash}))
+		if err := e.Reset(ctx, c.FEN); err != nil {
+			return nil, err
+		}
+		for _, mv := range moves {
+			if err := e.Move(ctx, mv); err != nil {
+				return nil, err
+			}
+		}
+		return e, nil
+	}
+	solo, err := mk(c.Moves)
+	if err != nil {
+		return err
+	}
+	want, err := analyzeToEnd(solo, c.Depth)
+	if err != nil {
+		return err
+	}
+	solo = nil
+	other, err := mk(c.Moves[:max(0, len(c.Moves)-c.OtherPlies)])
+	if err != nil {
+		return err
+	}
+	obs, err := mk(c.Moves)
+	if err != nil {
+		return err
+	}
+	if len(other.Board().Position().LegalMoves(other.Board().Turn())) == 0 {
+		stats.Case("C18/otherengines", 0, false, "terminal-root")
+		return nil
+	}
+	how := "before"
+	if c.Alongside {
+		how = "alongside"
+		if _, err := other.Analyze(ctx, searchctl.Options{}); err != nil {
+			return err
+		}
+	} else if _, err := analyzeToEnd(other, c.Depth+1); err != nil {
+		return err
+	}
+	got, err := analyzeToEnd(obs, c.Depth)
+	_, _ = other.Halt(ctx)
+	if err != nil {
+		return err
+	}
+	if len(got) == 0 || len(want) == 0 {
+		return fmt.Errorf("analysis reported nothing")
+	}
+	if a, b := got[len(got)-1], want[len(want)-1]; !a.equal(b) {
+		return fmt.Errorf("%s, Hash %d MB, depth %d at %s: with another engine of the same kind analysing %s (its game: %d plies earlier) the engine reports %v; alone it reports %v",
+			c.Config, c.Hash, c.Depth, obs.Position(), how, c.OtherPlies, a, b)
+	}
+	stats.Case("C18/otherengines", stats.FP(c.searchCase, c.Hash, c.OtherPlies, c.Alongside), true, "cfg:"+c.Config, fmt.Sprintf("hash:%d", c.Hash), how)
+	return nil
+})
+
+func TestC18_otherengines(t *testing.T) {
+	runRapid(t, "C18/otherengines", 160, func(t *rapid.T) otherEnginesCase {
+		sc := genSearchCase(t, abConfigs)
+		cfg, _ := findConfig(sc.Config)
+		if g, err := (gen.GameCase{FEN: sc.FEN, Moves: sc.Moves}).Build(); err == nil {
+			sc.Depth = rapid.IntRange(1, estimateDepth(g, cfg, 4, 10_000)).Draw(t, "d")
+		}
+		return otherEnginesCase{searchCase: sc, Hash: uint(rapid.SampledFrom([]int{1, 64, 128, 128, 256}).Draw(t, "hash")),
+			OtherPlies: rapid.IntRange(0, min(2, len(sc.Moves))).Draw(t, "otherplies"), Alongside: rapid.Bool().Draw(t, "alongside")}
+	}, func(c otherEnginesCase) error {
+		stats.Sample("C18/otherengines", c)
+		return checkC18Others(c)
+	})
+}
